@@ -12,12 +12,18 @@
   (`c14_kernel_propagates`, `c14_opcount_prefix`) — proved for EVERY computation over the operator, hence for every kernel, size,
   input and fault index; lifted through `Orch.init`/`Orch.compute` to the whole solver for every fault index from 1 to the number
   of applications of the fault-free run (`c14_propagates`).
+  General family (`Model/FaultOpGen.lean`: `genKernF` = `GenSolver.genKern` with `Arnoldi::init`, `Arnoldi::factorize_from` and the
+  re-factorization that ends `GenEigsBase::restart` routed through the fallible operator): `c14_gen_kernel_faultfree`
+  (`genKernF op (never op.A) = genKern op`), `c14_gen_propagates` (every fault index 1 ≤ k ≤ `num_operations()` of the fault-free
+  `init; compute`, from any prior object state), `c14_gen_opcount_at_throw`, `c14_gen_recover` (recovery with `Respects`
+  discharged by C06's `gen_respects`: unconditional).
   Source facts regenerated on every run (`Gen.FaultFootprint`): no raw allocation in any function of the solver, factorization and
   helper classes, and the only try/catch is a catch-all that restores the operator's shift and rethrows the same exception (`c14_no_leak`), `SparseRegularInverse::solve` is a conforming thrower (`c14_lib_thrower`).
 -/
 import SpectraVerif.Properties.C06
 import SpectraVerif.Properties.C12
 import SpectraVerif.Proofs.C14Orch
+import SpectraVerif.Proofs.C14Gen
 import SpectraVerif.Gen.FaultFootprint
 
 set_option linter.unusedSectionVars false
@@ -149,6 +155,83 @@ theorem c14_propagates_any_kernels (fi : β → φ → FacRes φ) (fz : Nat → 
   init_compute_faulted K c fi fz rf hF v0 sel maxit tol sorting s hinit hK
 
 end kernel
+
+
+/-! ### the general family: GenEigsSolver / GenEigsRealShiftSolver with an operator that throws at its k-th application -/
+
+section genkernel
+open FaultOp FaultOp.Prog FaultOpGen Lin Arnoldi
+variable {α : Type} [Add α] [Sub α] [Mul α] [Div α] [Neg α] [Sc α]
+
+/-- **fault-free = the existing total model**: `genKernF` with an operator that never fails IS `GenSolver.genKern` (the record
+    tied bit for bit to `GenEigsSolver` / `GenEigsRealShiftSolver` by C02/C05/C06) -/
+theorem c14_gen_kernel_faultfree (op : Op α) (c : Cfg) (eps23 : α) (back : GenSolver.Cx α → GenSolver.Cx α) :
+    genKernF op (never op.A) c eps23 back = GenSolver.genKern op c eps23 back :=
+  genKernF_never op c eps23 back
+
+/-- … and the re-factorization of the general family's restart under a total operator is `GenSolver.restartFac`; the shift loop
+    (single and double shifts), `compress_H` and `compress_V` apply no operator and do not move the counter -/
+theorem c14_gen_kernel_faultfree_restart (op : Op α) (c : Cfg) (k : Nat) (ritzVal : List (GenSolver.Cx α)) (s : State α) :
+    GenSolver.restartFac op c.ncv k ritzVal s =
+      (match (restartFacGF op c.ncv k ritzVal s).evalT op.A with
+       | some s3 => ⟨s3, s3.ops - s.ops, none⟩
+       | none => ⟨restartPreG op c.ncv k ritzVal s, 0,
+           some (.invalidArgument "Arnoldi: from_k is larger than the current subspace dimension")⟩) ∧
+    (restartPreG op c.ncv k ritzVal s).ops = s.ops :=
+  ⟨restartFacGF_eval op c k ritzVal s, restartPreG_ops op c.ncv k ritzVal s⟩
+
+/-- **propagation through the whole solver, general family**: solver built from the fault-aware kernels, operator whose `k`-th
+    application since `init()` throws `e`, ANY object state `s` before the call, any arguments.  If the fault-free `init(v)`
+    succeeds and `1 ≤ k ≤` the number of applications of the fault-free `init(v); compute(args)` (its `num_operations()`), then
+    the faulted `init(v)` ends with `e`, or it returns normally and the faulted `compute(args)` ends with `e`. -/
+theorem c14_gen_propagates (op : Op α) (c : Cfg) (eps23 : α) (back : GenSolver.Cx α → GenSolver.Cx α) (k : Nat) (e : Exn) (hk : 1 ≤ k)
+    (s : St (State α) (GenSolver.Cx α) (GenSolver.Cx α) (Vec (GenSolver.Cx α))) (v0 : Vec α)
+    (sel : Int) (maxit : Nat) (tol : α) (sorting : Int)
+    (hinit : (init (GenSolver.genKern op c eps23 back) c v0 s).2 = none)
+    (hK : k ≤ (compute (GenSolver.genKern op c eps23 back) c sel maxit tol sorting
+      (init (GenSolver.genKern op c eps23 back) c v0 s).1).st.nmatop) :
+    (init (genKernF op (faultAt op.A k e) c eps23 back) c v0 s).2 = some e ∨
+    ((init (genKernF op (faultAt op.A k e) c eps23 back) c v0 s).2 = none ∧
+      (compute (genKernF op (faultAt op.A k e) c eps23 back) c sel maxit tol sorting
+        (init (genKernF op (faultAt op.A k e) c eps23 back) c v0 s).1).out = .error e) := by
+  rw [genKernF_eq]
+  exact c14_propagates_any_kernels _ c _ _ _ (fun s => s.ops) k e (genKernF_faultedBy op c eps23 back k e hk)
+    s v0 sel maxit tol sorting hinit hK
+
+/-- **the counter at the throw**: a `factorize_from` call of the general family whose window contains the fault index reports
+    exactly `e`, counts `k - 1 - (counter before)` applications into `m_nmatop` and leaves the counter at `k - 1` -/
+theorem c14_gen_opcount_at_throw (op : Op α) (c : Cfg) (eps23 : α) (back : GenSolver.Cx α → GenSolver.Cx α) (k : Nat) (e : Exn)
+    (a b : Nat) (s : State α) (h1 : s.ops < k) (h2 : k ≤ s.ops + (arnoldiFactorizeF op s a b).count op.A) :
+    ((genKernF op (faultAt op.A k e) c eps23 back).factorize a b s).exn = some e ∧
+    ((genKernF op (faultAt op.A k e) c eps23 back).factorize a b s).ops = k - 1 - s.ops ∧
+    ((genKernF op (faultAt op.A k e) c eps23 back).factorize a b s).fac.ops = k - 1 := by
+  rw [genKernF_factorize_hit op c eps23 back k e a b s h1 h2]
+  exact ⟨rfl, rfl, rfl⟩
+
+/-- **recovery, general family, no hypothesis on the kernels**: for EVERY well-formed state `sFault` (whatever an interrupted
+    `init`/`compute` left behind: the faulted kernels never write the `const` members) a new `init(v); compute(args)` with the
+    fault cleared is observationally identical to the same calls on a solver whose history never saw a fault. -/
+theorem c14_gen_recover (op : Op α) (c : Cfg) (eps23 : α) (back : GenSolver.Cx α → GenSolver.Cx α) (near0 eps : α)
+    (sFault : C06Footprint.GSt α) (hwf : C06Footprint.WfG c near0 eps sFault) (hist : List (Call (Vec α) α))
+    (v0 : Vec α) (sel : Int) (maxit : Nat) (tol : α) (sorting : Int) (nvecs : List Nat)
+    (hacc : (init (GenSolver.genKern op c eps23 back) c v0 sFault).2 = none) :
+    C06.SameObs (GenSolver.genKern op c eps23 back) c nvecs
+      (compute (GenSolver.genKern op c eps23 back) c sel maxit tol sorting (init (GenSolver.genKern op c eps23 back) c v0 sFault).1)
+      (compute (GenSolver.genKern op c eps23 back) c sel maxit tol sorting (init (GenSolver.genKern op c eps23 back) c v0
+        (run (GenSolver.genKern op c eps23 back) c (construct (State.mk0 c.n c.ncv near0 eps)) hist)).1) :=
+  (C06.c06_gen_init_total op c eps23 back near0 eps sFault _ hwf
+    (C06Footprint.gen_run_wf op c eps23 back near0 eps hist (C06Footprint.gen_construct_wf c near0 eps))
+    v0 sel maxit tol sorting nvecs).2 hacc
+
+/-- the faulted kernels keep the object well formed (so `c14_gen_recover` applies to whatever a faulted call leaves behind):
+    on the exception path `facRes` returns the object of before the call with only the counter changed -/
+theorem c14_gen_fault_keeps_consts (op : Op α) (c : Cfg) (eps23 : α) (back : GenSolver.Cx α → GenSolver.Cx α) (k : Nat) (e : Exn)
+    (a b : Nat) (s : State α) (h1 : s.ops < k) (h2 : k ≤ s.ops + (arnoldiFactorizeF op s a b).count op.A) :
+    C06Footprint.consts ((genKernF op (faultAt op.A k e) c eps23 back).factorize a b s).fac = C06Footprint.consts s := by
+  rw [genKernF_factorize_hit op c eps23 back k e a b s h1 h2]
+  rfl
+
+end genkernel
 
 /-! ### nothing leaks, nothing swallows: source facts regenerated on every run -/
 
